@@ -70,7 +70,10 @@ func (s Set[T]) Has(val T) bool {
 func (s Set[T]) Copy() Set[T] {
 	ret := NewSet(s.rules)
 	for k, v := range s.vals {
-		ret.vals[k] = v
+		// Each bucket gets its own backing array: Add appends to a bucket in
+		// place, so a bucket slice shared between the two sets would let an
+		// Add on one set overwrite a member of the other.
+		ret.vals[k] = append(make([]T, 0, len(v)), v...)
 	}
 	return ret
 }
